@@ -22,7 +22,7 @@ def sweep(rng, n):
 oracle_search = propgen.budgeted([sweep])
 
 
-oracle_at = propgen.definitional_oracle_at(['hier_inversions', 'hier_gauc', 'hier_measures'], 'equals the triplet-ranking definition')
+oracle_at = propgen.chained(propgen.point_oracle(ID), propgen.definitional_oracle_at(['hier_inversions', 'hier_gauc', 'hier_measures'], 'equals the triplet-ranking definition'))
 
 
 def diagnose(b):
